@@ -217,5 +217,5 @@ def plan(tier, seed):
     tasks = []
     for i in range(16):
         prof = ["lengths", "template", "blobs", "full"][i % 4]
-        tasks.append(("generated", {"examples": 40 if q else 700, "profile": prof}))
+        tasks.append(("generated", {"examples": 40 if q else 2500, "profile": prof}))
     return tasks
